@@ -35,8 +35,8 @@ def check(tree, rep, tier='quick', seed=0):
                        'sibling symmetry: the person-specific inputs and lines a definition reads are closed under exchanging the two (R16.5). Withholding moves '
                        'refund-minus-owed one for one: each withholding source enters its line, and each link of the chain 25a/b/c -> 25d -> 33, with coefficient '
                        'exactly 1 on every value path (linear normal forms), and total tax and its ancestors are outside the taint closure of the withholding '
-                       'sources (R16.3, R16.4); with the C15 identity 34 - 37 = 33 - 24 the relation follows. A necessary condition of "a larger deduction never raises tax": where a yes/no line elects between two amounts by comparing them, the amount used when it is false is, per filing status, the very amount it compares against (R16.6).')
-    rep.rule_text = 'obligation = one definition (R16.1/2/5), one (year, chain link, source) (R16.3), one (year, tax line) (R16.4), one elected amount line (R16.6)'
+                       'sources (R16.3, R16.4); with the C15 identity 34 - 37 = 33 - 24 the relation follows. A necessary condition of "a larger deduction never raises tax": where a yes/no line elects between two amounts by comparing them, the amount used when it is false is, per filing status, the very amount it compares against (R16.6). State tax withheld reaches the NC return exactly once for every owner value of the form it is reported on (R16.7: the owner and state tests of D-400 lines 20a / 20b are evaluated per member of the owner enumeration).')
+    rep.rule_text = 'obligation = one definition (R16.1/2/5), one (year, chain link, source) (R16.3), one (year, tax line) (R16.4), one elected amount line (R16.6), one (year, NC withholding box, owner) case (R16.7)'
     rep.exhaustive = True
     rep.assumptions = ['NOT decided (no sound static argument in reach): "more wages never lower total tax" and "a larger deduction never raises it" - monotonicity through data-dependent switches (itemize vs standard, credit phase-outs, not-implemented cliffs)',
                        'floating-point re-association of sums of cent-rounded amounts under renumbering is not modelled']
@@ -153,6 +153,8 @@ def check(tree, rep, tier='quick', seed=0):
                        f'{y} {l["line"]}: an extra dollar of {src} does not move the line by exactly one dollar on every path: {bad[:2]}', d.where,
                        sample={'line': f'{y}/{l["line"]}', 'source': src})
     n_el = election_consistency(an, rep)
+    n_nc = nc_withholding_split(an, rep)
+    rep.floor('(NC withholding box, owner) cases decided', n_nc, 40)
     rep.floor('amount lines chosen by a comparing yes/no line', n_el, 3)
     rep.floor('definitions checked for renumbering invariance', n_defs, 2200)
     rep.floor('withholding chain links', n_links, 30)
@@ -255,4 +257,119 @@ def _flag_key(c):
     from ..amounts import canon
     if isinstance(c, E) and c.op == 'v' and c.ty == 'bool':
         return canon(c.args[0])
+    return None
+
+
+def nc_withholding_split(an, rep):
+    """R16.7 - state tax withheld reaches the NC return exactly once whoever owns the form it is reported on: the two
+    lines that split it between the spouses (D-400 lines 20a and 20b) are per-copy sums of `box if <owner test> and
+    <state is NC> else 0`; for every box that either line adds and every member of that form's owner enumeration,
+    exactly one of the two lines takes the box when the state is NC.  (A box dropped for one owner value means an
+    extra dollar withheld there moves refund-minus-owed by nothing.)"""
+    from ..amounts import canon
+    from ..interp import EnumMember
+    n = 0
+    for y in an.cat.years:
+        fr = an.cat.find(y, 'nc_d-400')
+        if fr is None:
+            continue
+        terms = {}          # line -> {box atom: [(cond, form)]}
+        for ln in ('20a', '20b'):
+            d = an.defs.get((y, fr.name, ln))
+            if d is None:
+                raise AnalysisError(f'{y}: nc_d-400 line {ln} not found (anchor vanished)')
+            per = terms.setdefault(ln, {})
+            for p in d.paths:
+                if p.outcome.kind != 'ret' or not isinstance(p.outcome.value, E):
+                    continue
+                _collect_cond_boxes(p.outcome.value, None, per)
+        boxes = sorted(set(terms['20a']) | set(terms['20b']))
+        if len(boxes) < 5:
+            raise AnalysisError(f'{y}: per-copy withholding terms of nc_d-400 lines 20a/20b not recognised (anchor vanished)')
+        for box in boxes:
+            form = box.split(':', 1)[1].split(':')[0]
+            owner_atom = f'v:{form}:*.belongs_to'
+            ifr = an.cat.find(y, form, 0) or an.cat.find(y, form)
+            orec = ifr.input_map().get('belongs_to') if ifr is not None else None
+            enum = orec.attrs.get('enum') if orec is not None else None
+            if enum is None:
+                rep.undecide(f'{y}: owner enumeration of {form} not found')
+                continue
+            for m in enum.members:
+                member = enum.member(m)
+                takes = {}
+                undec = False
+                for ln in ('20a', '20b'):
+                    conds = terms[ln].get(box, [])
+                    vals = []
+                    for c in conds:
+                        r = _eval_cond(c, owner_atom, member)
+                        if r is None:
+                            undec = True
+                        vals.append(bool(r))
+                    takes[ln] = sum(vals)
+                if undec:
+                    rep.undecide(f'{y}: condition on {box} not decidable for owner {m}')
+                    continue
+                n += 1
+                total = takes['20a'] + takes['20b']
+                rep.ob('R16.7', f'{y}/{box[2:]}/{m}', total == 1,
+                       f'{y} NC D-400: tax withheld in {box[2:]} on a form owned by `{m}` is taken {takes["20a"]} time(s) by line 20a and {takes["20b"]} time(s) by line 20b; '
+                       f'it must reach the return exactly once, otherwise an extra dollar withheld there does not move the refund by one dollar', fr.where)
+    return n
+
+
+def _collect_cond_boxes(e, cond, out):
+    """walk sums / per-copy sums; record  box -> [condition under which it is added]"""
+    from ..amounts import canon
+    if not isinstance(e, E):
+        return
+    if e.op in ('add',):
+        for a in e.args:
+            _collect_cond_boxes(a, cond, out)
+    elif e.op == 'sumn':
+        _collect_cond_boxes(e.args[2], cond, out)
+    elif e.op == 'ite':
+        c, a, b = e.args
+        c2 = c if cond is None else E('and', cond, c, ty='bool')
+        _collect_cond_boxes(a, c2, out)
+        if isinstance(b, E):
+            _collect_cond_boxes(b, E('not', c, ty='bool') if cond is None else E('and', cond, E('not', c, ty='bool'), ty='bool'), out)
+    elif e.op == 'call' and e.args[0] in ('float', 'round') and len(e.args) >= 2:
+        _collect_cond_boxes(e.args[1], cond, out)
+    elif e.op == 'v':
+        out.setdefault('v:' + canon(e.args[0]), []).append(cond)
+
+
+def _eval_cond(c, owner_atom, member):
+    """truth of the condition when the owner is `member` and every state box says NC; None = not decidable"""
+    from ..amounts import canon
+    from ..interp import EnumMember
+    if c is None:
+        return True
+    if isinstance(c, bool):
+        return c
+    if not isinstance(c, E):
+        return None
+    if c.op == 'not':
+        r = _eval_cond(c.args[0], owner_atom, member)
+        return None if r is None else (not r)
+    if c.op in ('and', 'or'):
+        rs = [_eval_cond(a, owner_atom, member) for a in c.args]
+        if c.op == 'and':
+            return False if any(r is False for r in rs) else (None if any(r is None for r in rs) else True)
+        return True if any(r is True for r in rs) else (None if any(r is None for r in rs) else False)
+    if c.op in ('eq', 'ne') and len(c.args) == 2:
+        a, b = c.args
+        if isinstance(b, E) and not isinstance(a, E):
+            a, b = b, a
+        if isinstance(a, E) and a.op == 'v' and isinstance(b, EnumMember):
+            atom = 'v:' + canon(a.args[0])
+            if atom == owner_atom:
+                r = (b == member)
+            elif b.name == 'NC':
+                r = True          # the state box names North Carolina (the case the rule is about)
+            else:
+                return None
+            return r if c.op == 'eq' else (not r)
     return None
